@@ -95,8 +95,9 @@ def describe(c):
     return d
 
 
-def run_smooth(prop, tier, seed, cases, rule):
+def run_smooth(prop, tier, seed, cases, rule, matchers=None):
     rep = core.Report(prop, tier, seed)
+    rep.matchers.update(matchers or {})
     cases = [sc.execute(c) for c in cases]
     hinted = any(c.get("hinted_run") for c in cases)
     for c in cases:
